@@ -38,3 +38,41 @@ Print Assumptions C06_read_keeps_position_valid.
 Print Assumptions C06_every_operation_keeps_position_valid.
 Print Assumptions C06_every_history_keeps_position_valid.
 Print Assumptions C06_failing_operation_restores.
+
+(* ------------------------------------------------------------------------------------------------------------------------------------
+   The same machine with options.lsb0 as a parameter (StreamLsb.v; readers from LsbPack.v, mutators through the mode-dependent content
+   functions, searches through st_find / st_rfind lsb0; the position rules of bitstream.py do not look at the option). With the option
+   off it IS the machine above; in BOTH bit numberings every operation and hence every history keeps 0 <= pos <= len, a failing operation
+   leaves content and position untouched (readto included), and peeks are pure. *)
+From BS Require Import LsbPack StreamLsb.
+Theorem C06_lsb0_machine_with_option_off : (forall s op, step_m false s op = sstep s op) /\ (forall ops s, run_m false s ops = srun s ops).
+Proof. split; [exact step_m_false|exact run_m_false]. Qed.
+Theorem C06_every_operation_keeps_pos_valid_in_both_modes : forall (lsb0 : bool) (s : stream) (op : sop), valid s -> valid (fst (step_m lsb0 s op)).
+Proof. exact step_m_valid. Qed.
+Theorem C06_every_history_keeps_pos_valid_in_both_modes : forall (lsb0 : bool) (b : bits) (pos : Z) (ops : list sop),
+  0 <= pos <= zlen b -> valid (run_m lsb0 (mkstream b pos) ops).
+Proof. exact fresh_stream_histories_m. Qed.
+Theorem C06_failing_operation_restores_in_both_modes : forall (lsb0 : bool) (s : stream) (op : sop), snd (step_m lsb0 s op) = false -> fst (step_m lsb0 s op) = s.
+Proof. exact failing_step_m_restores. Qed.
+Theorem C06_peeks_pure_in_both_modes : forall (lsb0 : bool) (s : stream),
+  (forall t : token, fst (step_m lsb0 s (OPeek t)) = s /\ snd (peek_token_m lsb0 s t) = snd (read_token_m lsb0 s t)) /\
+  (forall ts : list token, fst (step_m lsb0 s (OPeeklist ts)) = s /\ snd (peeklist_m lsb0 s ts) = snd (readlist_m lsb0 s ts)).
+Proof. exact peeks_pure_m. Qed.
+(* where the mutators leave the position, in both modes *)
+Theorem C06_mutator_position_rules : forall (lsb0 : bool) (s : stream) (bs : bits) (pos : option Z),
+  let p0 := match pos with Some v => v | None => spos s end in
+  let p := if p0 <? 0 then p0 + zlen (sbits s) else p0 in
+  (let s' := fst (st_append_m lsb0 s bs) in spos s' = zlen (sbits s') /\ zlen (sbits s') = zlen (sbits s) + zlen bs) /\
+  (let s' := fst (st_prepend_m lsb0 s bs) in spos s' = 0 /\ zlen (sbits s') = zlen (sbits s) + zlen bs) /\
+  (forall s' : stream, zlen bs <> 0 -> st_insert_m lsb0 s bs pos = (s', Ok tt) ->
+     0 <= p <= zlen (sbits s) /\ spos s' = p + zlen bs /\ zlen (sbits s') = zlen (sbits s) + zlen bs) /\
+  (forall s' : stream, zlen bs <> 0 -> st_overwrite_m lsb0 s false bs pos = (s', Ok tt) ->
+     0 <= p <= zlen (sbits s) /\ spos s' = p + zlen bs /\ spos s' <= zlen (sbits s')) /\
+  (forall r : res bits, let s' := fst (reset_if_len_changed s r) in spos s' = spos s \/ spos s' = 0 /\ zlen (sbits s') <> zlen (sbits s)).
+Proof. exact mutator_pos_rules. Qed.
+Print Assumptions C06_lsb0_machine_with_option_off.
+Print Assumptions C06_every_operation_keeps_pos_valid_in_both_modes.
+Print Assumptions C06_every_history_keeps_pos_valid_in_both_modes.
+Print Assumptions C06_failing_operation_restores_in_both_modes.
+Print Assumptions C06_peeks_pure_in_both_modes.
+Print Assumptions C06_mutator_position_rules.
